@@ -200,7 +200,7 @@ MUTANTS["C10"] = [
 ]
 
 MUTANTS["C11"] = [
-    M("out-redeem-hash", "psbt.py", "            if self.redeem_script.hash160() != script_pubkey.commands[1]:\n                raise ValueError(\n                    \"RedeemScript hash160 and ScriptPubKey hash160 do not match\"\n                )\n            for sec in self.named_pubs.keys():", "            for sec in self.named_pubs.keys():", ["C11.1"], "output redeem script not hashed"),
+    M("out-redeem-hash", "psbt.py", "            if self.redeem_script.hash160() != script_pubkey.commands[1]:\n                raise ValueError(\n                    \"RedeemScript hash160 and ScriptPubKey hash160 do not match\"\n                )\n            if self.redeem_script.is_p2wpkh():", "            if self.redeem_script.is_p2wpkh():", ["C11.1"], "output redeem script not hashed"),
     M("in-witness-nonwitness", "psbt.py", "            if self.witness_script:\n                raise ValueError(\"WitnessScript provided without a witness UTXO\")\n", "", ["C11.1"], "witness script with non-witness UTXO unchecked"),
     M("quorum-n", "psbt.py", "                if expected_quorum_n != output_quorum_n:\n                    raise SuspiciousTransaction(\n                        f\"Previous input(s) set a max cosigners of {expected_quorum_n}, but this transaction is {output_quorum_n}\"\n                    )\n", "", ["C11.2"], "change quorum n not compared"),
     M("rederive", "psbt.py", "                    if hdpub.traverse(trimmed_path).sec() != named_pub.sec():\n                        raise SuspiciousTransaction(\n                            f\"xpub {hdpub} with path {named_pub.root_path} does not appear to be part of output # {cnt}\"", "                    if False:\n                        raise SuspiciousTransaction(\n                            f\"xpub {hdpub} with path {named_pub.root_path} does not appear to be part of output # {cnt}\"", ["C11.2"], "change keys not re-derived"),
